@@ -99,6 +99,14 @@ impl SvgElement {
 //@ - r == old(self).classes@.contains(class@) && final(self).classes@ == old(self).classes@.remove(class@)
 //@ - final(self).name == old(self).name && final(self).attrs == old(self).attrs
 //@end
+//@item src/element.rs :: impl SvgElement :: fn set_attr
+//@ ensures
+//@ - final(self).attrs@ == old(self).attrs@.insert(key@, value@)
+//@ - final(self).name == old(self).name && final(self).classes == old(self).classes
+//@end
+    /// `SvgElement::new("text", &[])`: an element without attributes
+    #[verifier::external_body]
+    pub fn new_text() -> (r: SvgElement) ensures r.name@ == "text"@, r.attrs@ == Map::<Seq<char>, Seq<char>>::empty() { unimplemented!() }
     #[verifier::external_body]
     pub fn bbox(&self) -> (r: Result<Option<BoundingBox>>) ensures r is Ok ==> r->Ok_0 == elem_bbox(*self) { unimplemented!() }
     #[verifier::external_body]
@@ -146,6 +154,27 @@ pub open spec fn vclass(base_in: Seq<char>, base_out: Seq<char>, outside: bool, 
 //@       && (is_right(a) && !is_left(a) ==> c.last()@ == vclass("d-text-right"@, "d-text-left"@, out, v)) })     @@C19.class.table
 //@ - r is Ok ==> !final(element).attrs@.dom().contains("text-loc"@) && !final(element).attrs@.dom().contains("text-offset"@)
 //@       && !final(element).attrs@.dom().contains("text-dx"@) && !final(element).attrs@.dom().contains("text-dy"@) && !final(element).attrs@.dom().contains("text-dxy"@)     @@C19.attrs.moved
+//@end
+
+// ------------------------------------------------------------------------------ the generated text element
+// R-fragment: the statements of process_text_attr that create the <text> element and take the
+// text-specific attributes text-lsp / text-style off the shape. For a <text> carrier the generated
+// element is a copy of the carrier: whatever is taken off afterwards stays on the copy.
+impl Clone for SvgElement { #[verifier::external_body] fn clone(&self) -> (r: Self) ensures r == *self { unimplemented!() } }
+//@item src/text.rs :: fn process_text_attr
+//@ fragment-name text_element_of
+//@ fragment-from <<<    // There will always be a text element>>>
+//@ fragment-to <<<        text_elem.set_attr("style", style);\n    }>>>
+//@ fragment-head <<<fn text_element_of(orig_elem: &mut SvgElement, x_str: String, y_str: String) -> Result<(SvgElement, R32, Option<String>)> {>>>
+//@ fragment-tail <<<    Ok((text_elem, line_spacing, text_style))\n}>>>
+//@ strlit "text" "text-lsp" "text-style" "x" "y" "style" "1.05"
+//@ replace[R-ctor] <<<SvgElement::new("text", &[])>>> => <<<SvgElement::new_text()>>>
+//@ replace[R-into] <<<.unwrap_or("1.05".to_owned())>>> => <<<.unwrap_or("1.05".to_string())>>>
+//@ ensures
+//@ - r is Ok ==> !r->Ok_0.0.attrs@.dom().contains("text-lsp"@) && !r->Ok_0.0.attrs@.dom().contains("text-style"@)     @@C19.attrs.text_specific_not_on_text_element
+//@ - r is Ok ==> !final(orig_elem).attrs@.dom().contains("text-lsp"@) && !final(orig_elem).attrs@.dom().contains("text-style"@)     @@C19.attrs.moved_lsp_style
+//@ - r is Ok ==> (match map_get(old(orig_elem).attrs@, "text-style"@) { Some(st) => map_get(r->Ok_0.0.attrs@, "style"@) == Some(st), None => old(orig_elem).name@ != "text"@ ==> !r->Ok_0.0.attrs@.dom().contains("style"@) })     @@C19.attrs.text_style_becomes_style
+//@ - r is Ok ==> strp_spec(attr_or(old(orig_elem).attrs@, "text-lsp"@, "1.05"@)) == Some(val(r->Ok_0.1))     @@C19.attrs.line_spacing
 //@end
 
 // ------------------------------------------------------------------------------ the text itself
